@@ -620,3 +620,177 @@ M('C11','silent-delete-guard-form','ds/orderedmap/orderedmap.go','''	if value.ne
 	} else {
 		value.next.prev = value.prev
 	}''','',silent=True)
+
+# ---------------- C17
+M('C17','counter-wait-if','runtime/syncutils/counter.go','''	for c.value >= threshold {
+		c.valueDecreasedCond.Wait()
+	}''','''	if c.value >= threshold {
+		c.valueDecreasedCond.Wait()
+	}''','cond/wait-in-loop-under-locker valueDecreasedCond.Wait')
+M('C17','update-wrong-cond','runtime/syncutils/counter.go','''	} else if delta <= -1 {
+		c.valueDecreasedCond.Broadcast()
+	}
+
+	return newValue''','''	} else if delta <= -1 {
+		c.valueIncreasedCond.Broadcast()
+	}
+
+	return newValue''','cond/wake-obligation runtime/syncutils.Counter.Update value decreased')
+M('C17','set-no-broadcast-on-increase','runtime/syncutils/counter.go','''	if oldValue = c.set(newValue); oldValue < newValue {
+		c.valueIncreasedCond.Broadcast()
+	} else if oldValue > newValue {''','''	if oldValue = c.set(newValue); oldValue > newValue {''','cond/wake-obligation runtime/syncutils.Counter.Set value increased')
+M('C17','push-no-broadcast','runtime/syncutils/stack.go','''	b.mutex.Unlock()
+
+	b.elementAdded.Broadcast()
+}''','''	b.mutex.Unlock()
+}''','cond/wake-obligation runtime/syncutils.Stack.Push element added')
+M('C17','pop-no-deferred-broadcast','runtime/syncutils/stack.go','''func (b *Stack[T]) Pop() (element T, success bool) {
+	defer func() {
+		if success {
+			b.elementRemoved.Broadcast()
+		}
+	}()
+''','''func (b *Stack[T]) Pop() (element T, success bool) {
+''','cond/wake-obligation runtime/syncutils.Stack.Pop removal')
+M('C17','runlock-no-signal','runtime/syncutils/starvingmutex.go','''		f.mutex.Unlock()
+		f.writerCond.Signal()
+
+		return
+	}
+	f.mutex.Unlock()
+}''','''		f.mutex.Unlock()
+
+		return
+	}
+	f.mutex.Unlock()
+}''','cond/wake-obligation runtime/syncutils.StarvingMutex.RUnlock')
+M('C17','unlock-always-readers','runtime/syncutils/starvingmutex.go','''	f.mutex.Unlock()
+	f.writerCond.Signal()
+}''','''	f.mutex.Unlock()
+	f.readerCond.Broadcast()
+}''','cond/wake-obligation runtime/syncutils.StarvingMutex.Unlock writer leaves -> pending writer woken')
+M('C17','lock-grant-before-loop','runtime/syncutils/starvingmutex.go','''	f.pendingWriters++
+	for !f.canWrite() {
+		f.writerCond.Wait()
+	}
+	if debug.GetEnabled() {
+		close(doneChan)
+	}
+	f.pendingWriters--
+	f.writerActive = true''','''	f.pendingWriters++
+	f.writerActive = true
+	for f.readersActive != 0 {
+		f.writerCond.Wait()
+	}
+	if debug.GetEnabled() {
+		close(doneChan)
+	}
+	f.pendingWriters--''','excl/bookkeeping runtime/syncutils.StarvingMutex.Lock writerActive = true')
+M('C17','canwrite-ignores-readers','runtime/syncutils/starvingmutex.go','return !f.writerActive && f.readersActive == 0','return !f.writerActive','excl/bookkeeping runtime/syncutils.StarvingMutex.canWrite')
+M('C17','rlock-ignores-writer','runtime/syncutils/starvingmutex.go','''	for f.writerActive {
+		f.readerCond.Wait()
+	}
+''','''	for f.writerActive && f.pendingWriters > 0 {
+		f.readerCond.Wait()
+	}
+''','excl/bookkeeping runtime/syncutils.StarvingMutex.RLock readersActive++')
+M('C17','unlock-no-panic','runtime/syncutils/starvingmutex.go','''	if !f.writerActive {
+		panic("Unlock called without Lock")
+	}
+
+''','','excl/unlock-not-held-panics runtime/syncutils.StarvingMutex.Unlock')
+M('C17','runlock-no-panic','runtime/syncutils/starvingmutex.go','''	if f.readersActive == 0 {
+		panic("RUnlock called without RLock")
+	}
+''','''	if f.readersActive == 0 {
+		f.mutex.Unlock()
+
+		return
+	}
+''','excl/unlock-not-held-panics runtime/syncutils.StarvingMutex.RUnlock')
+M('C17','dag-lock-under-registry','runtime/syncutils/dagmutex.go','''	d.Mutex.Lock()
+	mutex := d.registerMutex(id)
+	d.Mutex.Unlock()
+
+	mutex.Lock()''','''	d.Mutex.Lock()
+	defer d.Mutex.Unlock()
+	mutex := d.registerMutex(id)
+
+	mutex.Lock()''','dag/no-blocking-under-registry')
+M('C17','dag-register-nolock','runtime/syncutils/dagmutex.go','''	d.Mutex.Lock()
+	mutex := d.registerMutex(id)
+	d.Mutex.Unlock()
+''','''	mutex := d.registerMutex(id)
+''','lock/guarded-by DAGMutex.registerMutex() in runtime/syncutils.DAGMutex.Lock')
+M('C17','dag-unregister-always-delete','runtime/syncutils/dagmutex.go','if count, _ := d.consumerCounter.Get(id); count == 1 {','if count, _ := d.consumerCounter.Get(id); count >= 1 {','dag/consumer-count runtime/syncutils.DAGMutex.unregisterMutex last-consumer')
+M('C17','stack-size-nolock','runtime/syncutils/stack.go','''func (b *Stack[T]) Size() int {
+	b.mutex.RLock()
+	defer b.mutex.RUnlock()
+''','''func (b *Stack[T]) Size() int {
+''','lock/guarded-by Stack.elements in runtime/syncutils.Stack.Size')
+M('C17','counter-broadcast-before-change','runtime/syncutils/counter.go','''func (c *Counter) Increase() (newValue int) {
+	return c.Update(1)''','''func (c *Counter) Increase() (newValue int) {
+	c.valueIncreasedCond.Broadcast()
+	c.valueMutex.Lock()
+	c.value++
+	newValue = c.value
+	c.valueMutex.Unlock()
+
+	return newValue''','who/writes')
+M('C17','silent-unlock-signal-under-lock','runtime/syncutils/starvingmutex.go','''	f.mutex.Unlock()
+	f.writerCond.Signal()
+}''','''	f.writerCond.Signal()
+	f.mutex.Unlock()
+}''','',silent=True)
+
+# ---------------- C16
+M('C16','dispatcher-drops-task','runtime/workerpool/workerpool.go','''		if task, success := w.Queue.PopOrWait(w.IsRunning); success {
+			w.dispatcherChan <- task
+		}''','''		if task, success := w.Queue.PopOrWait(w.IsRunning); success && w.IsRunning() {
+			w.dispatcherChan <- task
+		}''','conserve/dispatcher')
+M('C16','close-before-zero','runtime/workerpool/workerpool.go','''	w.PendingTasksCounter.WaitIsZero()
+
+	close(w.dispatcherChan)''','''	close(w.dispatcherChan)''','shutdown/close-after-zero')
+M('C16','dispatcher-stops-when-not-running','runtime/workerpool/workerpool.go','for w.IsRunning() || w.Queue.Size() > 0 {','for w.IsRunning() {','shutdown/dispatcher-drains')
+M('C16','run-no-markdone','runtime/workerpool/task.go','''	t.workerFunc()
+	t.markDone()''','''	t.workerFunc()''','conserve/task runtime/workerpool.Task.run')
+M('C16','handleshutdown-drops','runtime/workerpool/workerpool.go','''		if w.optCancelPendingTasksOnShutdown {
+			task.markDone()
+		} else {
+			task.run()
+		}''','''		if !w.optCancelPendingTasksOnShutdown {
+			task.run()
+		}''','conserve/worker runtime/workerpool.WorkerPool.handleShutdown')
+M('C16','shutdown-no-queue-signal','runtime/workerpool/workerpool.go','''		w.Queue.SignalShutdown()
+''','','shutdown/protocol runtime/workerpool.WorkerPool.Shutdown signals queue')
+M('C16','shutdown-one-signal','runtime/workerpool/workerpool.go','''		for range w.workerCount {
+			w.shutdownSignal <- struct{}{}
+		}
+''','''		w.shutdownSignal <- struct{}{}
+''','shutdown/protocol runtime/workerpool.WorkerPool.Shutdown one signal per worker')
+M('C16','worker-add-inside','runtime/workerpool/workerpool.go','''		w.ShutdownComplete.Add(1)
+
+		go w.worker()''','''		go func() {
+			w.ShutdownComplete.Add(1)
+			w.worker()
+		}()''','wg/add-before-go')
+M('C16','push-before-count','runtime/workerpool/workerpool.go','''	w.increasePendingTasks()
+
+	w.Queue.Push(newTask(workerFunc, w.decreasePendingTasks, lo.First(optStackTrace)))''','''	w.Queue.Push(newTask(workerFunc, w.decreasePendingTasks, lo.First(optStackTrace)))
+	w.increasePendingTasks()''','submit/count-before-publish')
+M('C16','isrunning-nolock','runtime/workerpool/workerpool.go','''func (w *WorkerPool) IsRunning() bool {
+	w.mutex.RLock()
+	defer w.mutex.RUnlock()
+''','''func (w *WorkerPool) IsRunning() bool {
+''','lock/guarded-by WorkerPool.isRunning in runtime/workerpool.WorkerPool.IsRunning')
+M('C16','group-wrong-transition','runtime/workerpool/group.go','''	pool.PendingTasksCounter.Subscribe(func(oldValue, newValue int) {
+		if oldValue == 0 {
+			g.PendingChildrenCounter.Increase()
+		} else if newValue == 0 {''','''	pool.PendingTasksCounter.Subscribe(func(oldValue, newValue int) {
+		if oldValue < newValue {
+			g.PendingChildrenCounter.Increase()
+		} else if newValue == 0 {''','group/transitions runtime/workerpool.Group.CreatePool')
+M('C16','decrease-increases','runtime/workerpool/workerpool.go','''func (w *WorkerPool) decreasePendingTasks() {
+	w.PendingTasksCounter.Decrease()''','''func (w *WorkerPool) decreasePendingTasks() {
+	w.PendingTasksCounter.Increase()''','conserve/counter-pairing')
